@@ -68,6 +68,20 @@ def cases(tier, seed):
                 expr = 'pc+%d' % (d + 1) if d + 1 >= 0 else 'pc-%d' % (-(d + 1))
                 lines = head + ['%s %s%s' % (mn, pre, expr.upper() if rng.random() < .3 else expr)]
                 out.append((mn, '\n'.join(lines), start, pretok + ['v%d' % (start + 1 + d)], d))
+    # far targets: a distance that only fits after wrapping through 16 bits must be rejected
+    for mn, lim in mns:
+        pre = '3, ' if mn in ('brbs', 'brbc') else ''
+        pretok = ['v3'] if pre else []
+        for far in (65536, -65536, 131072, 65536 + 5, -65536 - 17, 32768 + 3, 4096 + 2, 128 + 1, -128 - 2, 256 + 1):
+            if mn not in ('rjmp', 'rcall', 'breq', 'brne', 'brbs') and abs(far) > 300:
+                continue
+            d = far
+            expr = 'pc+%d' % (d + 1) if d + 1 >= 0 else 'pc-%d' % (-(d + 1))
+            out.append((mn, 'nop\n%s %s%s' % (mn, pre, expr), 1, pretok + ['v%d' % (1 + 1 + d)], d))
+            if d > 0:
+                out.append((mn, '%s %stgt\n.org %d\ntgt: nop' % (mn, pre, 1 + d), 0, pretok + ['v%d' % (1 + d)], d))
+            else:
+                out.append((mn, 'tgt: nop\n.org %d\n%s %stgt' % (-d - 1, mn, pre), -d - 1, pretok + ['v0'], d))
     return out
 
 def run(tier, seed, model_ok):
@@ -101,7 +115,7 @@ def run(tier, seed, model_ok):
             vio.append({'what': 'oracle could not judge (harness bug)', 'source': c[1], 'impl': a[:100], 'expected': s, 'key': c[0]})
     return {
         'evaluations': len(cs), 'distinct_nontrivial': len({c[1] for c in cs}),
-        'rule': 'all 18 named branches + brbs/brbc + rjmp + rcall x distances within 70 of each range limit on both sides and around zero (rjmp/rcall thinned in the quick tier away from the limits), forward/backward labels with random filler (1- and 2-word instructions, .dw, odd .db lines, .org gaps) at random start addresses, and pc-relative expressions; distinct = distinct programs',
+        'rule': 'all 18 named branches + brbs/brbc + rjmp + rcall x distances within 70 of each range limit on both sides and around zero (rjmp/rcall thinned in the quick tier away from the limits), forward/backward labels with random filler (1- and 2-word instructions, .dw, odd .db lines, .org gaps) at random start addresses, and pc-relative expressions; far targets (distances of 64 Ki, 128 Ki words and other values that fit only after wrapping) through pc expressions and .org gaps; distinct = distinct programs',
         'samples': [cs[0][1], cs[len(cs) // 2][1]],
         'exhaustive': False,
         'distribution': {'reachable_targets': accepted, 'unreachable_targets': rejected, 'per_mnemonic': Counter(c[0] for c in cs).most_common(4)},
